@@ -14,7 +14,7 @@ TRACE = "TraceNamespaces"
 NSS = [["a", "/"], ["a", "/", "x", "/"], ["b", "#"]]
 IRIS = [["a", "/", "f"], ["a", "/", "x", "/", "g"], ["a", "/", "x"], ["b", "#", "q"]]
 NSS_R = ["urn:a/", "urn:a/x/", "urn:a/x#", "urn:b#", "urn:a/x/b", "http://c.example/v"]
-IRIS_R = ["urn:a/foo", "urn:a/x/bar", "urn:a/x#baz", "urn:a/x", "urn:b#q", "urn:a/x/bq", "http://c.example/vocab", "urn:a/x/"]
+IRIS_R = ["urn:a/foo", "urn:a/x/bar", "urn:a/x#baz", "urn:a/x", "urn:b#q", "urn:a/x/bq", "http://c.example/vocab", "urn:a/x/", "urn:a/x/b1x", "http://c.example/v2"]
 
 
 def execute(job):
@@ -55,7 +55,7 @@ def random_history(rng, n):
         elif r < 0.84:
             evs.append({"op": "n3", "iri": rng.choice(IRIS_R)})
         elif r < 0.88:
-            evs.append({"op": "cq_strict", "iri": rng.choice(IRIS_R)})
+            evs.append({"op": "cq_strict", "iri": rng.choice(IRIS_R + ["urn:a/x/b1x", "http://c.example/v2"] * 3)})
         elif r < 0.93:
             evs.append({"op": "expand", "p": rng.choice(["", "a", "b", "ns1", "a1", "default1"]), "l": "zz"})
         elif r < 0.97:
@@ -99,4 +99,15 @@ def run(out, tier, seed):
     for i in range(1500 if quick else 20000):
         jobs.append({"cfg": {"nss": NSS_R, "iris": IRIS_R, "prefixes": ["", "a", "b", "c", "d"], "store": ["Memory", "SimpleMemory"][i % 2],
                              "bind_namespaces": ["none", "none", "core"][i % 3]}, "events": random_history(rng, rng.randint(3, 14))})
+    # focused exhaustive family: strict / non-strict qnames of an IRI under a namespace without trailing delimiter, against re-binds
+    import itertools
+    alpha = [{"op": "bind", "p": p, "n": n, "override": ov, "replace": False} for p in ("a", "c") for n in ("urn:a/x/b", "urn:a/x/") for ov in (True, False)]
+    alpha += [{"op": "cq_strict", "iri": "urn:a/x/b1x"}, {"op": "cq", "iri": "urn:a/x/b1x", "generate": True}]
+    depth4 = list(itertools.product(alpha, repeat=4))
+    if quick:
+        depth4 = [h for i, h in enumerate(depth4) if i % 3 == seed % 3]
+    for h in depth4:
+        if sum(1 for e in h if e["op"] != "bind") >= 1 and h[0]["op"] == "bind":
+            jobs.append({"cfg": {"nss": ["urn:a/x/b", "urn:a/x/"], "iris": ["urn:a/x/b1x"], "prefixes": ["a", "c"], "store": "Memory", "bind_namespaces": "none"},
+                         "events": [dict(e) for e in h]})
     out.conform(__name__, TRACE, jobs, nontrivial=nontrivial, chunk=1500)
